@@ -147,9 +147,9 @@ func (fv *FnVC) finishReturn(in *inst, r retInfo, suffix string) {
 	if !pos.IsValid() {
 		pos = f.Pos()
 	}
-	in.at = r.node.blk
+	in.at, in.atNode = r.node.blk, r.node
 	ce := in.baseEnv(st)
-	in.at = nil
+	in.at, in.atNode = nil, nil
 	for i, nm := range resultNames(sig) {
 		ce.vars[nm] = vs[i]
 	}
@@ -170,7 +170,9 @@ func (fv *FnVC) finishReturn(in *inst, r retInfo, suffix string) {
 		if ls.Unroll > 0 || len(ls.Steps) == 0 || snap == nil || !exitsFromInside(l, r.node.blk) {
 			continue
 		}
+		in.at, in.atNode = r.node.blk, r.node
 		ce3 := in.baseEnv(st)
+		in.at, in.atNode = nil, nil
 		for k, v := range snap.vars {
 			ce3.vars[k] = v // the loop's lets take precedence over source names
 		}
@@ -179,6 +181,7 @@ func (fv *FnVC) finishReturn(in *inst, r retInfo, suffix string) {
 		}
 		ce3.it0 = snap.st
 		ce3.it0vars = snap.vars
+		ce3.pre = snap.pre
 		ce3.vars["exited"] = bval("true")
 		ce3.vars["continued"] = bval("false")
 		ce3.where = fmt.Sprintf("%s loop %d exit", funcKey(f), l.ord)
